@@ -153,6 +153,8 @@ def run_soup(item):
         res["hist"][cls] = res["hist"].get(cls, 0) + 1
         if cls != "return":
             res["nontrivial"] += 1
+        if len(toks) == max_len and res.get("sample") is None and cls not in ("NoSuchOptionException",):
+            res["sample"] = {"soup": toks, "format": {"opts": spec["opts"], "args": spec["args"], "names": spec["names"]}, "strict": cls}
         for v in vs:
             rank = [len(toks), sum(len(x) for x in toks), fi]
             old = res["viol"].get(v["sig"])
@@ -394,6 +396,7 @@ def main():
     base_lines = 0
     bare_none = 0
     dups = 0
+    nsamp, soup_sampled = {}, set()
     for it, r in zip(items, results):
         dups += r.get("duplicates", 0)
         tot[it[0]] += r["lines"]
@@ -405,7 +408,13 @@ def main():
         base_lines += r.get("base_lines", 0)
         bare_none += r.get("bare_none", 0)
         if r.get("sample"):
-            rep.sample(r["sample"], cap=6)
+            kind = "soup" if "soup" in r["sample"] else r["sample"]["fault"]
+            if kind != "soup" or it[1][0] not in soup_sampled:
+                if kind == "soup":
+                    soup_sampled.add(it[1][0])
+                if nsamp.get(kind, 0) < (3 if kind == "soup" else 1):
+                    nsamp[kind] = nsamp.get(kind, 0) + 1
+                    rep.sample(r["sample"], cap=12)
         for sig, (rank, v) in r["viol"].items():
             if sig not in best or rank < best[sig][0]:
                 best[sig] = (rank, v)
